@@ -52,6 +52,11 @@ type stats struct {
 	branches, selects                                     int
 }
 
+type poolState struct {
+	items []Value
+	vc    VC
+}
+
 type inputRec struct {
 	Name string
 	T    *Term
@@ -113,6 +118,10 @@ type Exec struct {
 	userState map[string]Value
 	lockWaiters []*G
 	findKey string
+	pools   map[*Cell]*poolState
+	randCalls int
+	randFaultAt int
+	syncMaps map[*Cell]*MapV
 	failedAlways int
 	shared  *sync.Map
 	initTopInstr ssa.Instruction
@@ -383,7 +392,7 @@ func runPath(prog *Program, cfg *Config, sol *Solver, harness string, prefix []D
 		inputCnt: map[string]int{}, funcs: map[string]int{}, reached: map[string]bool{},
 		mutexes: map[*Cell]*mutexState{}, wgs: map[*Cell]*wgState{}, atomVals: map[*Cell]Value{},
 		preempted: map[syncKey]bool{}, races: map[string]bool{}, lockEdges: map[string]bool{},
-		userState: map[string]Value{}, shared: shared,
+		userState: map[string]Value{}, shared: shared, syncMaps: map[*Cell]*MapV{}, pools: map[*Cell]*poolState{}, randFaultAt: -1,
 	}
 	sol.Reset()
 	s0, u0, k0, t0 := sol.nSat, sol.nUnsat, sol.nUnknown, sol.solveTime
